@@ -93,10 +93,13 @@ class C17(Config):
               "Local Open Scope Z_scope.")
     bin = "c17"
     release_too = True
-    n_tags = 64
+    n_tags = 68
     classes = {1: "C17-classify-confirmatory-flip"}
     shard_size = 1500
-    rule = ("schedule shifts (state.rs shift_schedule) driven through the public advance_migration overdue path on small states: "
+    rule = ("rebuilds of expired transfers (engine.rs rebuild_expired_transfer / _unsigned over a backend holding real wallet notes): single rebuilds "
+            "with the tip at offsets -600..0 around multiples of EXPIRY_MODULUS (every 4th offset in quick, every offset in thorough) and cohorts of "
+            "2..8 transfers rebuilt back to back at one tip, one case per rebuild (48 recorded stream words, then an unrecorded ChaCha tail for PCZT building/signing); "
+            "schedule shifts (state.rs shift_schedule) driven through the public advance_migration overdue path on small states: "
             "sequences of 1..8 late wake-ups with lags from {1,16,17,33,50,100,143,144,145,1000}, one case per wake-up; "
             "every public function of zcash_pool_migration::scheduling and zcash_protocol::zip318::{expiry_height, "
             "AnchorBucketInterval, classify, to_code/from_code} driven by a replaying RngCore over recorded u64 word "
@@ -108,6 +111,7 @@ class C17(Config):
         "axioms: none expected (Print Assumptions on every theorem)",
         "vlib/props/c17.py constant extractors (ANCHOR_AGE_CAP, EXPIRY_*, delay constants, PREP_TX_ACTIONS, crossing action counts, denomination bounds, classification codes)",
         "harness/wallet/src/bin/c17.rs: replaying RngCore, printers, catch_unwind wrappers; vlib case-file generator",
+        "rebuild cases: the chain base inputs (tip, scheduled heights of the non-mined transfers), activation height 10 (regtest) and the funding height are read off the state the harness built; the recorded prefix of 48 words is assumed to cover the delay and anchor draws (the model would report Panic otherwise)",
         "schedule-shift cases: the harness builds states through the public from_parts constructors with row 0 a proved, due transfer and an always-satisfiable scripted store, so that advance_migration serves Broadcast{0} and applies shift_schedule(served - scheduled) exactly when the lag exceeds the tolerance (cases returning any other step are dropped and counted)",
         "f64/libm gap: the candidate delay of each stream word is computed by the harness with the same formula (libm::log) and passed to the model as an oracle value; only acceptance (<= cap), the returned delay and the number of words consumed are compared",
     ]
